@@ -9,6 +9,16 @@ Import ListNotations.
 Definition accept (P : params) (fuel : nat) (tr : list event) : list state * bool :=
   accept_from state label event (step P) obs taus vis event_eqb key fuel [init] tr.
 
+(* the same acceptor, one event at a time (so that the driver can enforce a frontier cap and a
+   time budget between events): [accept0] = closure of the initial state, [accept1 S e] = the
+   closed set after observing e from the closed set S.  Sound by the same lemmas of LTS.v
+   (CompositeBase.accept0_sound / accept1_sound). *)
+Definition accept0 (P : params) (fuel : nat) : list state * bool :=
+  close state label event (step P) obs taus key fuel [init].
+Definition accept1 (P : params) (fuel : nat) (S : list state) (e : event) : list state * bool :=
+  close state label event (step P) obs taus key fuel
+        (flat_map (succs_vis state label event (step P) obs vis event_eqb e) S).
+
 Definition depth (P : params) (fuel : nat) (tr : list event) : nat :=
   accept_depth state label event (step P) obs taus vis event_eqb key fuel [init] tr.
 
